@@ -98,7 +98,11 @@ def run(ctx):
                 if m["kind"] in ("cfg!", "cfg_attr"):
                     probs.append(f"{where}: {m['kind']}({m['pred']}) — behaviour/attributes differ between builds of the same item")
                     continue
-                if m["pos"] not in ("item", "impl-item", "file", "trait-item"):
+                if m["pos"] == "trait-impl-item" and m["pred"].strip() != "test":
+                    # an item of a trait impl can only be omitted when the trait has a default for it: gating it swaps the
+                    # definition in use (e.g. a `const PASERK_HEADER` override) instead of adding an item
+                    probs.append(f"{where}: #[cfg({m['pred']})] on item `{m.get('name', '')}` of a trait impl — reduced builds fall back to the trait's default definition")
+                elif m["pos"] not in ("item", "impl-item", "file", "trait-item"):
                     probs.append(f"{where}: #[cfg({m['pred']})] on a {m['pos']} — the body of an existing item changes with the feature set")
                 elif m["pred"].strip() == "test":
                     continue
@@ -109,9 +113,12 @@ def run(ctx):
             ctx.add("R19.2", f"C19/cfg-subtractive/{c}", not probs, "; ".join(probs)[:1500], facts={"cfg_attributes": n, "files": len(files)})
     # ---------------- R19.3 MIR digests of reduced configurations vs full
     full = {}
+    fullimpls = {}
     for c in CRATES:
         p = os.path.join(ctx.facts_dir, c.replace("-", "_") + ".lib.json")
-        full[c] = features.fn_digests(Crate(p))
+        fc = Crate(p)
+        full[c] = features.fn_digests(fc)
+        fullimpls[c] = {im["path"]: {it["name"]: json.dumps(it.get("value"), sort_keys=True) for it in im.get("items", [])} for im in fc.impls if im.get("of_trait")}
     configs = []
     for c in CRATES:
         table, flags, cl, sets = features.quick_sets(c, REPO_)
@@ -132,6 +139,20 @@ def run(ctx):
             ctx.add("R19.3", f"C19/same-code/{name}", False, f"extraction failed: {e}")
             continue
         dg = features.fn_digests(cr)
+        # associated items of every trait impl: same set and same constant values as in the full build (a gated override of a
+        # defaulted associated const/fn would silently fall back to the trait's default)
+        def impl_items(crx):
+            out = {}
+            for im in crx.impls:
+                if im.get("of_trait"):
+                    out[im["path"]] = {it["name"]: json.dumps(it.get("value"), sort_keys=True) for it in im.get("items", [])}
+            return out
+        ii_red, ii_full = impl_items(cr), fullimpls[c]
+        impl_diff = []
+        for ip, items in ii_red.items():
+            if ip in ii_full and items != ii_full[ip]:
+                changed = sorted(set(items.items()) ^ set(ii_full[ip].items()))
+                impl_diff.append(f"{ip}: {[n for n, _ in changed][:4]}")
         diff = [k for k, h in dg.items() if k in full[c] and full[c][k] != h]
         extra = [k for k in dg if k not in full[c]]
         probs = []
@@ -139,6 +160,8 @@ def run(ctx):
             probs.append(f"{len(diff)} function(s) compile to different MIR than in the full build: {diff[:4]}")
         if extra:
             probs.append(f"{len(extra)} function(s) exist only in the reduced build: {extra[:4]}")
+        if impl_diff:
+            probs.append(f"trait impl(s) whose associated items differ from the full build: {impl_diff[:3]}")
         ctx.add("R19.3", f"C19/same-code/{name}", not probs, "; ".join(probs), facts={"functions": len(dg)})
     ctx.sample({"closures_per_crate": 45, "builds_checked": len(res), "reduced_configs_compared": len(configs)})
 
